@@ -59,7 +59,8 @@ type WriteOutcome struct {
 // Conn is the library's side of an in-memory connection.
 type Conn struct {
 	mu   sync.Mutex
-	cond *sync.Cond
+	cond *sync.Cond // readers waiting for data
+	obs  *sync.Cond // the test side waiting for a fact (two conds: parked readers must not wake each other)
 
 	id     int
 	local  Addr
@@ -89,6 +90,7 @@ func NewConn() *Conn {
 	id := int(atomic.AddInt64(&connID, 1))
 	c := &Conn{id: id, local: Addr{"10.0.0.1:3868"}, remote: Addr{fmt.Sprintf("10.0.0.2:%d", 40000+id%20000)}, closeCh: make(chan struct{})}
 	c.cond = sync.NewCond(&c.mu)
+	c.obs = sync.NewCond(&c.mu)
 	return c
 }
 
@@ -132,7 +134,7 @@ func (c *Conn) Read(p []byte) (int, error) {
 	c.nreadBeg++
 	for len(c.in) == 0 && c.inErr == nil && !c.closed {
 		c.blocked++
-		c.cond.Broadcast() // wake WaitReaderBlocked
+		c.obs.Broadcast() // wake WaitReaderBlocked
 		c.cond.Wait()
 		c.blocked--
 	}
@@ -155,7 +157,7 @@ func (c *Conn) Read(p []byte) (int, error) {
 	k := c.nread
 	c.ev("read", k, n, err, nil)
 	hook := c.OnReadRet
-	c.cond.Broadcast()
+	c.obs.Broadcast()
 	c.mu.Unlock()
 	if hook != nil {
 		hook(k, n, err)
@@ -193,7 +195,7 @@ func (c *Conn) Write(b []byte) (int, error) {
 	c.out = append(c.out, b[:n]...)
 	c.inWrite--
 	c.ev("write.end", k, n, o.Err, b[:n])
-	c.cond.Broadcast()
+	c.obs.Broadcast()
 	c.mu.Unlock()
 	return n, o.Err
 }
@@ -205,6 +207,7 @@ func (c *Conn) Close() error {
 	c.closed = true
 	c.ev("close", c.nclose, 0, nil, nil)
 	c.cond.Broadcast()
+	c.obs.Broadcast()
 	c.mu.Unlock()
 	if first {
 		close(c.closeCh)
@@ -329,10 +332,10 @@ func (c *Conn) WaitClosed(d time.Duration) bool {
 func (c *Conn) timedWait(d time.Duration) {
 	t := time.AfterFunc(d, func() {
 		c.mu.Lock()
-		c.cond.Broadcast()
+		c.obs.Broadcast()
 		c.mu.Unlock()
 	})
-	c.cond.Wait()
+	c.obs.Wait()
 	t.Stop()
 }
 
